@@ -41,7 +41,6 @@ DecHP(c) == IF c.hp = << >> THEN NoPhase
             ELSE [block |-> c.hp[1][1],
                   al |-> [h \in 1..Len(c.hp) |-> c.gt[CHOOSE k \in DOMAIN c.hp : c.hp[k][2] = h]]]
 
-(* what a reader that accepts either encoding gets from one call; Mixed if they disagree in kind *)
 HasPSStatement(c) == DecPS(c) # NoPhase
 HasHPStatement(c) == DecHP(c) # NoPhase
 
